@@ -325,3 +325,29 @@ def check(ctx, run):
     run.oblige("C20.R4", "realized_volatility == sqrt(realized_variance)", ok, str(val)[:100])
     if not ok:
         run.fail(Finding("C20.R4", fi.qualname, str(val)[:100], "realized volatility must be the square root of realized variance", file=str(prog.modules[fi.module].path), line=fi.node.lineno))
+
+
+def precision_rule(ctx, run):
+    """R5: scalar bounds given as Python floats are used at the precision of the input: `torch.as_tensor(min)` without dtype makes a float32
+    0-dim tensor, so clamp(float64 x, min=0.1) returns 0.10000000149011612."""
+    from ..precision import lossy
+    from .. import entrypoints as E
+    from .. import world as W
+    prog, interp = ctx.prog, ctx.interp
+    run.require("C20.R5", 2)
+    for fn, extra in (("leaky_clamp", dict(clamped_slope=W.fl("slope"), inverted_output="mean")), ("clamp", dict(inverted_output="mean"))):
+        fi = E.functional(ctx, fn)
+        res = interp.explore(fi, [], dict(input=W.tensor("x"), min=W.fl("min"), max=W.fl("max"), **extra), max_paths=20)
+        bad = lossy(res, {"min", "max"})
+        run.oblige("C20.R5", f"{fn}: float bounds are not rounded to the default dtype", not bad, "; ".join(bad) or "bounds converted in the dtype of the input")
+        if bad:
+            run.fail(Finding("C20.R5", fi.qualname, "; ".join(bad), "a Python-float bound is rounded to float32 before it is compared with float64 data: the clamped value is not the bound that was asked for",
+                             file=str(prog.modules[fi.module].path), line=fi.node.lineno, witness="clamp(torch.tensor([0.], dtype=float64), min=0.1) = 0.10000000149011612"))
+
+
+_check_before_precision = check
+
+
+def check(ctx, run):  # noqa: F811
+    _check_before_precision(ctx, run)
+    precision_rule(ctx, run)
